@@ -10,7 +10,7 @@ open Flox Flox.Scan
 
 namespace DriverOps
 
-def parseScanFunc : String → Option Func
+def parseScanFunc : String → Option Flox.Scan.Func
   | "nancumsum" => some .nancumsum | "ffill" => some .ffill | "bfill" => some .bfill | _ => none
 
 def showResult : Result → String
